@@ -2,7 +2,7 @@
     visible ([failure_nulls]) sit at exactly the response paths of the plan's [visible_nulls]. *)
 From Coq Require Import List NArith ZArith Bool Lia.
 From ApiFu Require Import Base.Sexp Fut.Plan Fut.ExecSync Fut.Denote Fut.FutSpec Fut.BridgeC01 Fut.BridgeProofs.
-From ApiFu Require Exe.ExecData Exe.ExecSpec.
+From ApiFu Require ExeA.ArgData ExeA.ArgArgs ExeA.ArgSpec Val.Values.
 Import ListNotations.
 
 Definition trc (c : D.pathc) : pelem :=
@@ -115,6 +115,16 @@ Section BridgeNulls.
     rewrite site_paths_app, R, (IH js' eq_refl). reflexivity.
   Qed.
 
+  Lemma with_args_cnrel children pchildren ot :
+    (forall n, CNRel (children n) (pchildren n)) ->
+    forall n, CNRel (X.s_with_args S Doc children ot n) (p_with_args S Doc pchildren ot n).
+  Proof.
+    intros C n. split; [apply with_args_rel; intros k; apply (C k)|].
+    intros ty fields path p. unfold X.s_with_args, p_with_args.
+    destruct fields as [|f fs]; [intros _; exact Logic.I|].
+    destruct (ArgArgs.coerce_field_args S Doc ot f); [apply (C _) | intros _; exact Logic.I | intros _; exact Logic.I].
+  Qed.
+
   Lemma selection_set_nrel children pchildren ot sels path p :
     (forall n, CNRel (children n) (pchildren n)) -> trp path = slice p ->
     match X.so_val (X.s_selection_set S Doc E fuel children ot sels path) with
@@ -123,11 +133,13 @@ Section BridgeNulls.
     | None => True
     end.
   Proof.
-    intros C Ep. unfold X.s_selection_set, p_selection_set.
+    intros C0 Ep. pose proof (with_args_cnrel children pchildren ot C0) as C.
+    unfold X.s_selection_set, X.s_selection_set_raw, p_selection_set.
     destruct (X.s_collect S Doc E fuel ot sels) as [groups|]; [|exact I].
-    pose proof (Forall2_flat_map (ENRel p) _ _ groups (fun kf => entry_nrel children pchildren ot path p kf C Ep)) as F.
+    pose proof (Forall2_flat_map (ENRel p) _ _ groups
+                  (fun kf => entry_nrel (X.s_with_args S Doc children ot) (p_with_args S Doc pchildren ot) ot path p kf C Ep)) as F.
     pose proof (all_entries_nulls p _ _ F) as A. unfold X.s_all.
-    destruct (X.vals_of (map snd (flat_map (X.s_entry S children ot path) groups))) as [js|]; cbn [X.so_val X.so_nulls]; [|exact I].
+    destruct (X.vals_of (map snd (flat_map (X.s_entry S (X.s_with_args S Doc children ot) ot path) groups))) as [js|]; cbn [X.so_val X.so_nulls]; [|exact I].
     exact (A js eq_refl).
   Qed.
 
